@@ -87,7 +87,8 @@ func (x *Exec) VerifyFunc(key string, fc *FuncContract) (err error) {
 	st.now = Var("now0", SInt)
 	st.assumeRaw(Gt(st.now, IntLit(1_000_000_000)))
 	x.initGhostInts(st)
-	st.alloc = Var("alloc0", ArrOf(SBool))
+	st.alloc = Var("alloc0", SInt)
+	st.assumeRaw(Ge(st.alloc, IntLit(0)))
 
 	var body *ast.BlockStmt
 	var sig *types.Signature
@@ -352,9 +353,9 @@ func (x *Exec) pureFrame(fr *Frame, st *State, ctx *FuncCtx) {
 		init := Var("H0_"+sanitize(key), cur.Sort)
 		x.quantN++
 		a := Var(fmt.Sprintf("qa_%d", x.quantN), SInt)
-		goal := Forall([]*Term{a}, Implies(Select(Var("alloc0", ArrOf(SBool)), a), Eq(Select(cur, a), Select(init, a))))
+		goal := Forall([]*Term{a}, Implies(allocAt(Var("alloc0", SInt), a), Eq(Select(cur, a), Select(init, a))))
 		if strings.HasPrefix(key, "map_") {
-			goal = Forall([]*Term{a}, Implies(Select(Var("alloc0", ArrOf(SBool)), a), Eq(Select(cur, a), Select(init, a))))
+			goal = Forall([]*Term{a}, Implies(allocAt(Var("alloc0", SInt), a), Eq(Select(cur, a), Select(init, a))))
 		}
 		x.oblige(fr, st, "frame", "pure/"+key, goal, nil)
 	}
@@ -394,6 +395,10 @@ func (x *Exec) assignsFrame(fr *Frame, st *State, ctx *FuncCtx) {
 		}
 		return out
 	}
+	// one obligation per path: every heap array outside the frame is unchanged at the addresses
+	// allocated at entry (the keys concerned are listed in the obligation's position text)
+	var goals []*Term
+	var keys []string
 	for _, key := range st.heapKeys() {
 		if matches(key) {
 			continue
@@ -405,12 +410,17 @@ func (x *Exec) assignsFrame(fr *Frame, st *State, ctx *FuncCtx) {
 		init := Var("H0_"+sanitize(key), cur.Sort)
 		x.quantN++
 		a := Var(fmt.Sprintf("qa_%d", x.quantN), SInt)
-		conds := []*Term{Select(Var("alloc0", ArrOf(SBool)), a)}
+		conds := []*Term{allocAt(Var("alloc0", SInt), a)}
 		for _, ex := range onlyAt(key) {
 			conds = append(conds, Ne(a, ex))
 		}
-		goal := Forall([]*Term{a}, Implies(And(conds...), Eq(Select(cur, a), Select(init, a))))
-		x.oblige(fr, st, "frame", "assigns/"+key, goal, nil)
+		goals = append(goals, Forall([]*Term{a}, Implies(And(conds...), Eq(Select(cur, a), Select(init, a)))))
+		keys = append(keys, key)
+	}
+	for i := 0; i < len(goals); i += 6 {
+		j := min(i+6, len(goals))
+		x.oblige(fr, st, "frame", "assigns", And(goals[i:j]...), nil)
+		x.Obls[len(x.Obls)-1].Pos = "written outside the assigns clause? candidates: " + strings.Join(keys[i:j], ", ")
 	}
 }
 
